@@ -10,6 +10,7 @@ mod common;
 mod model;
 mod rng;
 mod world_fld;
+mod world_grp;
 
 use common::*;
 use serde::{Deserialize, Serialize};
@@ -21,6 +22,8 @@ use std::collections::{BTreeMap, BTreeSet};
 pub enum Spec {
     #[serde(rename = "fld")]
     Fld(world_fld::FldSpec),
+    #[serde(rename = "grp")]
+    Grp(world_grp::GrpSpec),
 }
 
 pub fn world_id(w: &str) -> u64 {
@@ -42,9 +45,18 @@ pub struct GenCtx {
 
 fn generate(world: &str, master: u64, index: u64, ctx: &GenCtx) -> Result<Spec, String> {
     let seed = rng::run_seed(master, world_id(world), index);
-    let _ = ctx;
     match world {
         "fld" => Ok(Spec::Fld(world_fld::generate(seed))),
+        "grp" => {
+            // the first indices of a batch are the short-program sweep (DESIGN 3.5)
+            let depth = if ctx.tier_thorough { 3 } else { 2 };
+            if index < world_grp::sweep_size(depth) {
+                Ok(Spec::Grp(world_grp::sweep_program(index, depth)))
+            } else {
+                Ok(Spec::Grp(world_grp::generate(seed, false)))
+            }
+        }
+        "pair" => Ok(Spec::Grp(world_grp::generate(seed, true))),
         _ => Err(format!("unknown world {}", world)),
     }
 }
@@ -52,12 +64,14 @@ fn generate(world: &str, master: u64, index: u64, ctx: &GenCtx) -> Result<Spec, 
 fn exec(spec: &Spec, prop: &str) -> RunResult {
     match spec {
         Spec::Fld(s) => world_fld::exec(s, prop),
+        Spec::Grp(s) => world_grp::exec(s, prop),
     }
 }
 
 fn ops_len(spec: &Spec) -> usize {
     match spec {
         Spec::Fld(s) => s.ops.len(),
+        Spec::Grp(s) => s.ops.len(),
     }
 }
 
@@ -67,6 +81,11 @@ fn keep_ops(spec: &Spec, keep: &[bool]) -> Spec {
             let mut t = s.clone();
             t.ops = s.ops.iter().zip(keep).filter(|(_, k)| **k).map(|(o, _)| o.clone()).collect();
             Spec::Fld(t)
+        }
+        Spec::Grp(s) => {
+            let mut t = s.clone();
+            t.ops = s.ops.iter().zip(keep).filter(|(_, k)| **k).map(|(o, _)| o.clone()).collect();
+            Spec::Grp(t)
         }
     }
 }
